@@ -355,7 +355,7 @@ impl TryFromJson for Leaf {
 }
 
 /// Shapes of documents for the conversion family.
-#[derive(Debug, Clone)]
+#[derive(Debug, Clone, serde::Serialize, serde::Deserialize)]
 pub enum Shape {
 	/// `Vec<Leaf>`
 	V(Vec<bool>),
@@ -615,7 +615,7 @@ pub fn run(ctx: &mut Ctx) {
 				Ok((nt, class)) => Outcome::ok(nt, vec![class]),
 				Err(m) => Outcome::fail(m),
 			},
-			|(shape, ch, target, wrong)| json!({"shape": format!("{shape:?}"), "choices": ch, "target": target, "wrong": wrong}),
+			|(shape, ch, target, wrong)| json!({"shape": serde_json::to_value(shape).unwrap_or(J::Null), "shown": format!("{shape:?}"), "choices": ch, "target": target, "wrong": wrong}),
 		);
 		ctx.add(fam);
 	}
@@ -677,8 +677,13 @@ pub fn run(ctx: &mut Ctx) {
 }
 
 pub fn replay(family: &str, case: &J) -> Result<(), String> {
-	if family == "T_conversions" || family == "T_builtin_leaves" {
-		return Err("replay of conversion cases: re-run the family (case recorded for reading)".into());
+	if family == "T_conversions" {
+		let shape: Shape = serde_json::from_value(case["shape"].clone()).map_err(|e| format!("UNSUPPORTED: bad shape encoding: {e}"))?;
+		let ch: Vec<u8> = case["choices"].as_array().ok_or("bad case")?.iter().map(|x| x.as_u64().unwrap() as u8).collect();
+		return conversion_property(&shape, &ch, case["target"].as_u64().unwrap() as u16, case["wrong"].as_u64().unwrap() as u8).map(|_| ());
+	}
+	if family == "T_builtin_leaves" {
+		return Err("UNSUPPORTED: the built-in leaf family is a fixed exhaustive table; re-run the check".into());
 	}
 	let input = dec_bytes(case);
 	let text = String::from_utf8(input).map_err(|e| e.to_string())?;
